@@ -57,7 +57,9 @@ Fresh == hist = <<>> \/ hist[Len(hist)].op # "select" \/ lastPar = par
 \*   "plain"   : one sector, a handful of samples (the memo alone is exercised)
 \*   "sectors" : 8 angular sectors with a binding nmaxi and unevenly filled sectors (a central and a corner
 \*               target): a counter left by the previous target changes which samples are retained.
-Layouts == {"plain", "sectors"}
+\*   "bench"   : a bench neighbourhood (NeighBench) in 3-D whose targets 0 and 1 lie in DIFFERENT benches: the class may
+\*               keep its memo between two targets of the same bench (hasChanged), never across benches.
+Layouts == {"plain", "sectors", "bench"}
 EmitScripts == (hist = <<>> \/ hist[Len(hist)].op # "select")
                \/ \A lay \in Layouts : PrintT(ToJson([layout |-> lay, hist |-> hist, predicted_fresh |-> Fresh]))
 =============================================================================
